@@ -168,6 +168,10 @@ class SArr(Model):
     def py_setitem(self, I, idx, val):
         old = self.fn
         n = self.length
+        if getattr(self, 'parent', None) is not None and self.kind == 'ndarray':
+            # a basic slice of an ndarray is a *view*: writing through it also changes the array it was taken from.  The value
+            # layer treats slices as copies, so such a write is outside the modelled subset (never silently mis-modelled)
+            raise Unsupported('in-place write through a slice (numpy view) of another array: aliasing between the view and its base is not modelled')
         if self.dtype == 'int':
             # assignment into an integer array truncates towards zero
             def trunc(x):
